@@ -53,6 +53,16 @@ fn zero_width(t: &DataType) -> bool {
     matches!(t, DataType::FixedSizeBinary(0) | DataType::FixedSizeList(_, 0))
 }
 
+fn null_through_encoding(t: &DataType) -> bool {
+    use DataType::*;
+    match t {
+        Union(_, _) | RunEndEncoded(_, _) | Dictionary(_, _) => true,
+        List(f) | LargeList(f) | ListView(f) | LargeListView(f) | FixedSizeList(f, _) | Map(f, _) => null_through_encoding(f.data_type()),
+        Struct(fs) => fs.iter().any(|f| null_through_encoding(f.data_type())),
+        _ => false,
+    }
+}
+
 const ALL_OPTS: [SortOptions; 4] = [
     SortOptions { descending: false, nulls_first: true },
     SortOptions { descending: false, nulls_first: false },
@@ -118,6 +128,20 @@ impl<'a> Ep<'a> {
         });
         let ev = json!({"op": "cmp", "a": a, "b": b, "desc": o.descending, "nf": o.nulls_first,
                         "pairs": pairs.iter().map(|(i, j)| json!([i, j])).collect::<Vec<_>>()});
+        self.finish(ev, res, |m, v| {
+            m.insert("out".into(), json!(v));
+        });
+    }
+
+    /// array equality of one-row slices (`PartialEq for dyn Array`) must agree with the comparator saying Equal
+    fn arreq(&mut self, a: usize, b: usize, pairs: &[(usize, usize)]) {
+        let (l, r) = (self.cols[a].clone(), self.cols[b].clone());
+        if null_through_encoding(l.data_type()) {
+            return; // a null can be denoted in two ways there (null key vs key of a null value, ...) and array
+                    // equality tells them apart: that is property C02's subject, not the order's
+        }
+        let res = call(|| Ok(pairs.iter().map(|(i, j)| l.slice(*i, 1).as_ref() == r.slice(*j, 1).as_ref()).collect::<Vec<bool>>()));
+        let ev = json!({"op": "arreq", "a": a, "b": b, "pairs": pairs.iter().map(|(i, j)| json!([i, j])).collect::<Vec<_>>()});
         self.finish(ev, res, |m, v| {
             m.insert("out".into(), json!(v));
         });
@@ -340,6 +364,8 @@ fn single_column(rng: &mut Rng, args: &Args, t: &mut Shards, st: &mut Stats, a: 
     }
     let o = rand_opts(rng);
     ep.cmp(0, 1, o, &cross);
+    ep.arreq(0, 1, &cross);
+    ep.arreq(0, 0, &self_pairs);
     let o = rand_opts(rng);
     ep.cmp(1, 0, o, &cross.iter().map(|(i, j)| (*j, *i)).collect::<Vec<_>>());
     // sort_to_indices: every option combination without limit, limits with random options
@@ -529,7 +555,7 @@ fn multi_column(rng: &mut Rng, args: &Args, t: &mut Shards, st: &mut Stats, type
 }
 
 /// every column of at most `maxlen` rows over a small domain of one type
-fn exhaustive(rng: &mut Rng, t: &mut Shards, st: &mut Stats, domain: ArrayRef, maxlen: usize) {
+fn exhaustive(rng: &mut Rng, args: &Args, t: &mut Shards, st: &mut Stats, domain: ArrayRef, maxlen: usize) {
     let d = domain.len();
     for len in 0..=maxlen {
         let total = d.pow(len as u32);
@@ -545,7 +571,12 @@ fn exhaustive(rng: &mut Rng, t: &mut Shards, st: &mut Stats, domain: ArrayRef, m
             let col = arrow_select::take::take(domain.as_ref(), &UInt32Array::from(idx), None).unwrap();
             let n = col.len();
             let mut ep = Ep::begin(t, st, vec![col], "exhaustive");
-            for o in ALL_OPTS {
+            // quick tier: two of the four option combinations per column
+            let skip = rng.below(2);
+            for (k, o) in ALL_OPTS.into_iter().enumerate() {
+                if !args.thorough() && k % 2 == skip {
+                    continue;
+                }
                 ep.sort_idx(0, Some(o), None);
                 for lim in 0..=n + 1 {
                     ep.sort_idx(0, Some(o), Some(lim));
@@ -623,7 +654,7 @@ fn main() {
     let mut t = Shards::create(&args.out, "order", 14);
     let mut st = Stats { events: 0, episodes: 0, skipped: 0, errs: 0 };
     let types = mk::all_types();
-    let rounds = args.scale(1, 6);
+    let rounds = args.scale(1, 4);
     for _ in 0..rounds {
         for dt in &types {
             let n = len_choice(&mut rng, &args);
@@ -650,8 +681,8 @@ fn main() {
         }
     }
     for d in domains(args.thorough()) {
-        let maxlen = if args.thorough() && d.len() <= 5 { 4 } else { 3 };
-        exhaustive(&mut rng, &mut t, &mut st, d, maxlen);
+        let maxlen = if args.thorough() && d.len() <= 4 { 4 } else { 3 };
+        exhaustive(&mut rng, &args, &mut t, &mut st, d, maxlen);
     }
     let written = t.finish();
     assert_eq!(written, st.events);
